@@ -27,7 +27,7 @@ for pid in sorted(CLAIMED):
         "engine": "lkcheck",
         "level_claimed": {"category": "other", "text": text, "design_ref": f"DESIGN.md section 4 ({pid}) and section 8.2/8.8 (as built, rules added after seeded-change testing)"},
         "level_note": note + " The exact list of clauses decided by the committed checker, including the rules added after seeded-change testing, is the coverage.explanation of the evidence file; the thorough tier additionally re-applies the self-test variants of selftest/" + pid + ".json and the stored seeded patches seeded/" + pid + "-*/patch.diff as overlays and requires the named obligations to fail.",
-        "technique": tech,
+        "technique": tech + "; plus the regression rules run for every property over the functions and types of its anchor files, each against a committed reference table inferred from the reviewed tree: error-report regression and error identity (K8), lock pairing and guarded-by fields (K10), field coverage of constructors/copies/resets (K4), deferred cleanup (K2). No code of /repo is executed, concretely or symbolically.",
     })
 
 props = [json.loads(l)["id"] for l in open(os.path.join(HERE, "properties.jsonl"))]
